@@ -915,15 +915,17 @@ fn run_c08(rng: &mut Rng, thorough: bool, rep: &mut Report, cw: &mut CaseWriter)
         // states
         let mut views: Vec<V> = vec![];
         let mut hyds: Vec<hydrate::Value> = vec![];
+        let mut reads_ok: Vec<bool> = vec![];
         let mut bad = false;
         for hs in &head_sets {
             let r = guard(|| (read_view(&all, &ROOT, ObjType::Map, Some(hs), enc, 0), all.hydrate(Some(hs))));
             match r {
                 Ok((v, h)) => {
                     if render_v(enc, &v) != render_h(&h) {
-                        rep.fail(&["C07", "C08"], "patch|view-vs-hydrate", "hydrate(heads) differs from the state read through map_range_at / list_range_at / text_at",
+                        rep.fail(&["C07", "C02"], "patch|reads-disagree|hydrate-vs-range-at", "hydrate(heads) differs from the state read through map_range_at / list_range_at / text_at",
                             json!({"heads": hexes(hs), "reads": render_v(enc, &v), "hydrate": render_h(&h), "replay": base_replay}));
                     }
+                    reads_ok.push(render_v(enc, &v) == render_h(&h));
                     views.push(v);
                     hyds.push(h);
                 }
@@ -977,7 +979,7 @@ fn run_c08(rng: &mut Rng, thorough: bool, rep: &mut Report, cw: &mut CaseWriter)
                 let nontrivial = !ps.is_empty();
                 let ok = jd.judge(&["C08"], "diff", enc, &views[i], &ps, &views[j], false, replay.clone());
                 // (a) the library's own applier on hydrate values (a rejection by the mirror is already reported)
-                if ok {
+                if ok && reads_ok[i] && reads_ok[j] {
                     let mut h = hyds[i].clone();
                     match guard(|| h.apply_patches(enc, patches.clone()).map(|_| h)) {
                         Ok(Ok(h)) => {
@@ -1059,13 +1061,14 @@ struct Mat {
     v: V,
     h: hydrate::Value,
     h_ok: bool,
+    skip_h_once: bool,
     v0: V,
     chain: Vec<(Vec<P>, V)>,
 }
 impl Mat {
     fn new(enc: TextEncoding) -> Self {
         let v = V::M(ROOT, vec![]);
-        Mat { enc, v: v.clone(), h: hydrate::Value::map(), h_ok: true, v0: v, chain: vec![] }
+        Mat { enc, v: v.clone(), h: hydrate::Value::map(), h_ok: true, skip_h_once: false, v0: v, chain: vec![] }
     }
     fn flush(&mut self, cw: &mut CaseWriter, model: bool, descr: &serde_json::Value) {
         if model && !self.chain.is_empty() {
@@ -1102,7 +1105,10 @@ impl Mat {
             }
         }
         // the library's own applier
-        if self.h_ok {
+        if self.skip_h_once {
+            self.skip_h_once = false;
+            self.h = want_h.clone();
+        } else if self.h_ok {
             let mut h = self.h.clone();
             match guard(|| h.apply_patches(self.enc, patches.to_vec()).map(|_| h)) {
                 Ok(Ok(h)) => {
@@ -1297,7 +1303,11 @@ fn chain_autocommit(rng: &mut Rng, thorough: bool, rep: &mut Report, cw: &mut Ca
         match res {
             Ok((patches, want, want_h, heads)) => {
                 if render_v(enc, &want) != render_h(&want_h) {
-                    rep.fail(&["C07", "C09"], "patch|view-vs-hydrate", "hydrate differs from the state read through map_range / list_range / text", json!({"log": log}));
+                    // two reads of the same document disagree: not a matter of patches.  The range reads are taken
+                    // as the document's state; the hydrate comparison is skipped for this step.
+                    rep.fail(&["C02", "C29"], "patch|reads-disagree|hydrate-vs-range", "doc.hydrate() differs from the state read through map_range / list_range / text on the same document",
+                        json!({"reads": render_v(enc, &want), "hydrate": render_h(&want_h), "isolated": isolated, "log": log}));
+                    mat.skip_h_once = true;
                 }
                 mat.step(rep, cw, model, what, &patches, &want, &want_h, &log);
                 if !heads.is_empty() && !recorded.contains(&heads) {
